@@ -99,6 +99,8 @@ def diagnose(prev, e):
     if e["event"] == "Rejected":
         return "rejected-tx:state-changed" if (e["changed"] or e["bal"] != prev["bal"] or e["nonce"] != prev["nonce"]) else "rejected-tx:unexplained"
     s = e["s"]
+    if e["nd"] != 0:
+        return "applied-tx:wrong-nonce-accepted:delta%+d" % e["nd"]
     dn = e["nonce"][s] - prev["nonce"][s]
     if dn != 1 or any(e["nonce"][x] != prev["nonce"][x] for x in e["nonce"] if x != s):
         return "applied-tx:%s:nonce-step-%d" % (to, dn)
